@@ -46,6 +46,11 @@ def gen_case(rnd):
         rx.append(r)
     for k in list(params):
         params[k] = float("%.4g" % min(max(params[k], 0.1), 10.0))
+    # "parameters >= 0.1": also large ones (the difference step of a parameter is an absolute 0.01)
+    big = [k for k in params if k.startswith(("k_", "g_", "K_"))]
+    if big and rnd.random() < 0.4:
+        kb = rnd.choice(big)
+        params[kb] = float("%.4g" % (params[kb] * rnd.choice([300.0, 1000.0, 2500.0])))
     for r in rx:
         if r["type"] in gen.HILL:
             for key in ("k", "K"):
